@@ -1144,7 +1144,7 @@ def c14(ctx):
 
 def bridge_run(ctx):
     import random
-    tlc_must_hold(ctx, "TcpBridge", "TcpBridge_MC.cfg")
+    tlc_must_hold(ctx, "TcpBridge", "TcpBridge_MCbig.cfg" if ctx.tier == "thorough" else "TcpBridge_MC.cfg")   # incl. the refinement TcpBridge => TcpBridgeObs
     tlc_must_fail(ctx, "TcpBridge", "TcpBridge_Attack_WaitBoth.cfg")
     gen = tlc_generate(ctx, "TcpBridgeGen", "TcpBridgeGen.cfg", "bridge_domains.json")
     dom = json.load(open(gen))
